@@ -586,8 +586,9 @@ def cancel_loop_idiom(ctx, m, q, f, cancel_call, name):
     """explicit-loop form of the cancellation helper; returns (recognised, active-filter present)"""
     from analysis.iterelem import iterator_expr
     nxs = [c for c in q.calls("next") if q.cfg.in_loop(c.b)]
-    if len(nxs) != 2:
+    if len(nxs) not in (1, 2):
         return False, False
+    single_pass = len(nxs) == 1     # `for id in orders { if !Active {continue}; if keep {kept.push(id)} else {env.cancel_order(id)} }`
     def item_of(c):
         return ("field", ("downcast", c.result, "Some"), "0", "std::option::Option")
     src_loop = cancel_loop = None
@@ -601,14 +602,16 @@ def cancel_loop_idiom(ctx, m, q, f, cancel_call, name):
             src_loop = c
         elif e is not None and e[0] == "local":
             cancel_loop = (c, e)
-    if src_loop is None or cancel_loop is None:
+    if src_loop is None or (cancel_loop is None and not single_pass):
         return False, False
-    cl_next, to_cancel = cancel_loop
-    # the cancel call: argument = item of the loop over the local list, no other condition
-    if not same(strip_unwrap(cancel_call.args[1]), item_of(cl_next)):
-        return False, False
-    if [a for a in cancel_call.guards if not (a[0] == "variant" and a[2] in (("Some",), ("None",)))]:
-        return False, False
+    to_cancel = None
+    if not single_pass:
+        cl_next, to_cancel = cancel_loop
+        # the cancel call: argument = item of the loop over the local list, no other condition
+        if not same(strip_unwrap(cancel_call.args[1]), item_of(cl_next)):
+            return False, False
+        if [a for a in cancel_call.guards if not (a[0] == "variant" and a[2] in (("Some",), ("None",)))]:
+            return False, False
     item = item_of(src_loop)
 
     def is_active(a):
@@ -622,7 +625,7 @@ def cancel_loop_idiom(ctx, m, q, f, cancel_call, name):
         return a[0] == "cmp" and ((a[1] == "ge" and a[2][0] == "call" and a[2][4] == "gen" and a[3][0] == "param" and a[3][2] == "p_cancel") or
                                   (a[1] == "le" and a[3][0] == "call" and a[3][4] == "gen" and a[2][0] == "param" and a[2][2] == "p_cancel"))
     pushes = [c for c in q.calls("push")]
-    to_c = [c for c in pushes if c.args[0] == to_cancel]
+    to_c = [c for c in pushes if c.args[0] == to_cancel] if not single_pass else [cancel_call]
     kept_local = q.ret()
     kept = [c for c in pushes if c.args[0] == kept_local]
     others = [c for c in pushes if c not in to_c and c not in kept]
